@@ -514,6 +514,7 @@ def regenerate():
     gx = gp = None
     try:
         gx, gp = translate.translate_all()
+        problems += ["translate: %s" % x for x in translate.FUNC_PROBLEMS]
         WRAPPER_USES = sorted(set(gx.wrapper_uses + gp.wrapper_uses))
         XML_CONSTS.update(gx.consts)
     except translate.TranslateError as e:
